@@ -36,6 +36,9 @@ def type_values():
     T['char5-late-nulls'] = ('char(5)', [lit_str(ch[i % len(ch)]) if i < 17 or i % 3 else None for i in range(40)])
     T['int-late-nulls'] = ('int', [str(i * 3) if i < 17 or i % 3 else None for i in range(40)])
     T['double-late-nulls'] = ('double', ["cast('%s' as double)" % dbl[i % len(dbl)] if i < 17 or i % 4 else None for i in range(40)])
+    blobs = ["'\\xAA\\xFF'", "'plain'", "''", "'\\x00\\x01\\x02'", "'" + 'b' * 60 + "'", "'q''q'", "'same'", "'same'", "'same'", "'same'", "'same'"]
+    T['blob'] = ('blob', [None if i % 5 == 3 else blobs[i % len(blobs)] for i in range(40)])
+    T['blob-not-null'] = ('blob not null', [blobs[i % len(blobs)] for i in range(40)])
     T['int-not-null'] = ('int not null', [str([5, 5, 5, 5, 5, 5, 5, 5, 9, 9, 9, 9, 9, 9, 1, 2][i % 16]) for i in range(40)])
     return T
 
